@@ -803,6 +803,7 @@ func c14BodyFast(c *h.Ctx) {
 func runC14(c *h.Ctx) {
 	defer c14NameCase(c) // last: it registers the agw./janus. annotations process-wide
 	defer c14BodyFast(c)
+	defer c14ApiNone(c)
 	defer c14Base(c)
 	c.Run("programs", c.N(3000, 100000), func(cs *h.Case) {
 		cfg := gen.TCfg{Includes: cs.R.Intn(3), SameNames: cs.R.Chance(70), HashKeys: cs.R.Chance(30), NonASCII: cs.R.Chance(40), MaxFields: 1 + cs.R.Intn(8)}
@@ -1125,7 +1126,8 @@ func nameCasePhase(c *h.Ctx, pfx string) {
 			eff := structCase
 			switch own {
 			case 2:
-				anno, eff = fmt.Sprintf(` (%s.to_snake = "%s")`, pkg, []string{"", "true"}[cs.R.Intn(2)]), 1
+				// every spelling strconv.ParseBool takes as true switches the annotation on (and "" does)
+				anno, eff = fmt.Sprintf(` (%s.to_snake = "%s")`, pkg, []string{"", "true", "1", "t", "T", "TRUE", "True"}[cs.R.Intn(7)]), 1
 			case 3:
 				if t.lower != "" {
 					anno, eff = fmt.Sprintf(` (%s.to_lower_camel_case = "true")`, pkg), 2
@@ -1133,7 +1135,7 @@ func nameCasePhase(c *h.Ctx, pfx string) {
 			case 4:
 				// switched off on the field: the struct's case (if it is another one) or the plain name
 				if structCase == 1 {
-					anno, eff = fmt.Sprintf(` (%s.to_snake = "false")`, pkg), 0
+					anno, eff = fmt.Sprintf(` (%s.to_snake = "%s")`, pkg, []string{"false", "0", "f", "F", "FALSE", "False"}[cs.R.Intn(6)]), 0
 				}
 			case 5:
 				anno, eff = fmt.Sprintf(` (api.key = "k_%d")`, i), 3
@@ -1233,4 +1235,85 @@ func aliasOf(fd *thrift.FieldDescriptor) string {
 func j2tDo(desc *thrift.TypeDescriptor, doc string) ([]byte, error) {
 	cv := j2t.NewBinaryConv(conv.Options{})
 	return cv.Do(context.Background(), desc, []byte(doc))
+}
+
+// c14ApiNone: api.none hides a member on the response side only. A struct that is reachable from a request, from a
+// return type and from a throws clause gets three descriptors: the member is declared (by id and by key) in the
+// request and exception copies and absent from the response copy - for every function and whichever is compiled first.
+func c14ApiNone(c *h.Ctx) {
+	c.Run("api-none-directions", c.N(60, 600), func(cs *h.Case) {
+		// (one exception per function: the library documents "only support single exception")
+		fnA, fnB := "Resp M(1: Req r) throws (1: Err e)", "Resp2 N(1: Req r) throws (1: Err2 e2)"
+		if cs.R.Bool() {
+			fnA, fnB = fnB, fnA
+		}
+		deep := cs.R.Bool()
+		shared := "Shared"
+		wrap := ""
+		if deep {
+			shared, wrap = "Wrap", "struct Wrap { 1: list<Shared> items, 2: map<string,Shared> byKey }\n"
+		}
+		idl := "namespace go verif\nstruct Shared { 1: string a, 2: string hidden (api.none=\"true\"), 3: i32 c }\n" + wrap +
+			"exception Err { 1: " + shared + " detail, 2: string msg }\nexception Err2 { 1: string msg, 2: " + shared + " more }\n" +
+			"struct Req { 1: " + shared + " s }\nstruct Resp { 1: " + shared + " s }\nstruct Resp2 { 1: i32 n, 2: " + shared + " s }\n" +
+			"service Svc { " + fnA + ", " + fnB + " }\n"
+		cs.Info("idl", idl)
+		svc, err := thrift.NewDescritorFromContent(context.Background(), "none.thrift", idl, nil, false)
+		if err != nil {
+			cs.Viol("tdesc:api-none:parse-error-on-valid-idl", "err", err)
+			return
+		}
+		sharedOf := func(t *thrift.TypeDescriptor, id thrift.FieldID) *thrift.StructDescriptor {
+			if t == nil || t.Struct() == nil || t.Struct().FieldById(id) == nil {
+				return nil
+			}
+			x := t.Struct().FieldById(id).Type()
+			if deep {
+				if x.Struct() == nil || x.Struct().FieldById(1) == nil {
+					return nil
+				}
+				if cs.R.Bool() {
+					x = x.Struct().FieldById(1).Type().Elem()
+				} else {
+					x = x.Struct().FieldById(2).Type().Elem()
+				}
+			}
+			return x.Struct()
+		}
+		check := func(where string, st *thrift.StructDescriptor, wantHidden bool) {
+			if st == nil {
+				cs.Viol("tdesc:api-none:descriptor-missing", "where", where)
+				return
+			}
+			byID, byKey := st.FieldById(2) != nil, st.FieldByKey("hidden") != nil
+			if byID != wantHidden || byKey != wantHidden || st.FieldById(1) == nil || st.FieldById(3) == nil {
+				cs.Viol("tdesc:api-none:member-visibility", "where", where, "by-id", byID, "by-key", byKey, "want", wantHidden)
+			}
+			cs.Cover("api_none_copies_checked")
+		}
+		for _, name := range []string{"M", "N"} {
+			fn, err := svc.LookupFunctionByMethod(name)
+			if err != nil || fn == nil {
+				cs.Viol("tdesc:api-none:function-missing", "name", name)
+				return
+			}
+			ft := func(t *thrift.TypeDescriptor, id thrift.FieldID) *thrift.TypeDescriptor {
+				if t == nil || t.Struct() == nil || t.Struct().FieldById(id) == nil {
+					return nil
+				}
+				return t.Struct().FieldById(id).Type()
+			}
+			check(name+":request", sharedOf(ft(fn.Request(), 1), 1), true)
+			retID := thrift.FieldID(1)
+			if name == "N" {
+				retID = 2
+			}
+			check(name+":return", sharedOf(ft(fn.Response(), 0), retID), false)
+			excID := thrift.FieldID(1)
+			if name == "N" {
+				excID = 2 // Err2 keeps the shared struct in its field 2
+			}
+			check(name+":throws", sharedOf(ft(fn.Response(), 1), excID), true)
+		}
+	})
 }
